@@ -4,6 +4,7 @@ import "xkvverif/internal/core"
 
 // Registry maps a property id to the function that adds its obligations to the report.
 var Registry = map[string]func(*core.Prog, *core.Report){
+	"C01": C01,
 	"C08": C08,
 	"C09": C09,
 	"C13": C13,
